@@ -105,6 +105,8 @@ func main() {
 		os.Exit(cmdReplay(os.Args[2:]))
 	case "selftest":
 		os.Exit(cmdSelftest(os.Args[2:]))
+	case "mutants":
+		os.Exit(cmdMutants(os.Args[2:]))
 	case "list":
 		for _, p := range props {
 			fmt.Printf("%s %s %s\n", p.ID, p.World, p.Pkg)
@@ -850,6 +852,103 @@ func cmdSelftest(args []string) int {
 	}
 	if bad {
 		return 2
+	}
+	return 0
+}
+
+// ---------------------------------------------------------------------------
+// sensitivity: every patch under /verif/mutants/<ID>/ must make the check of <ID> fail
+
+func cmdMutants(args []string) int {
+	fs := flag.NewFlagSet("mutants", flag.ExitOnError)
+	checks := fs.Int("checks", 0, "rapid checks per worker (0 = the quick budget)")
+	withTests := fs.Bool("with-tests", false, "also run tink's own tests of the touched packages on the mutant")
+	_ = fs.Parse(args)
+	ids := fs.Args()
+	if len(ids) == 0 {
+		for _, p := range props {
+			ids = append(ids, p.ID)
+		}
+	}
+	wt, err := os.MkdirTemp("", "vsim-mutants-")
+	if err != nil {
+		die(2, "%v", err)
+	}
+	os.Remove(wt)
+	if out, err := exec.Command("git", "-C", "/repo", "worktree", "add", "--detach", wt, "HEAD").CombinedOutput(); err != nil {
+		die(2, "cannot create scratch worktree: %v\n%s", err, out)
+	}
+	defer func() {
+		exec.Command("git", "-C", "/repo", "worktree", "remove", "--force", wt).Run()
+		os.RemoveAll(wt)
+	}()
+	self, _ := os.Executable()
+	survivors := 0
+	for _, id := range ids {
+		patches, _ := filepath.Glob(filepath.Join(verifDir, "mutants", id, "*.patch"))
+		sort.Strings(patches)
+		for _, patch := range patches {
+			name := strings.TrimSuffix(filepath.Base(patch), ".patch")
+			exec.Command("git", "-C", wt, "checkout", "--", ".").Run()
+			if out, err := exec.Command("git", "-C", wt, "apply", patch).CombinedOutput(); err != nil {
+				fmt.Printf("%s %-50s PATCH-DOES-NOT-APPLY %s\n", id, name, strings.TrimSpace(string(out)))
+				survivors++
+				continue
+			}
+			testNote := ""
+			if *withTests {
+				out, _ := exec.Command("git", "-C", wt, "diff", "--name-only").Output()
+				pkgs := map[string]bool{}
+				for _, f := range strings.Fields(string(out)) {
+					pkgs["./"+filepath.Dir(f)+"/..."] = true
+				}
+				targs := []string{"test", "-count=1", "-vet=off"}
+				for _, k := range sortedKeys(pkgs) {
+					targs = append(targs, k)
+				}
+				c := exec.Command("go", targs...)
+				c.Dir = wt
+				c.Env = append(os.Environ(), "GOFLAGS=-mod=mod", "GOPROXY=off", "GOSUMDB=off")
+				if o, err := c.CombinedOutput(); err != nil {
+					testNote = " (tink's own tests FAIL on this mutant: " + tail(string(o), 3) + ")"
+				} else {
+					testNote = " (tink's own tests pass)"
+				}
+				exec.Command("git", "-C", wt, "checkout", "--", "go.sum").Run()
+			}
+			cargs := []string{"check", id}
+			if *checks > 0 {
+				cargs = append(cargs, "--checks", strconv.Itoa(*checks))
+			}
+			c := exec.Command(self, cargs...)
+			c.Env = append(os.Environ(), "VSIM_REPO_DIR="+wt)
+			start := time.Now()
+			out, err := c.CombinedOutput()
+			code := 0
+			if ee, ok := err.(*exec.ExitError); ok {
+				code = ee.ExitCode()
+			}
+			key := ""
+			for _, l := range strings.Split(string(out), "\n") {
+				if strings.HasPrefix(l, "violation key=") && key == "" {
+					key = strings.TrimPrefix(l, "violation key=")
+				}
+			}
+			switch code {
+			case 1:
+				fmt.Printf("%s %-50s CAUGHT   %5.1fs %s%s\n", id, name, time.Since(start).Seconds(), key, testNote)
+			case 0:
+				fmt.Printf("%s %-50s SURVIVED %5.1fs%s\n", id, name, time.Since(start).Seconds(), testNote)
+				survivors++
+			default:
+				fmt.Printf("%s %-50s INFRA(exit %d) %s%s\n", id, name, code, tail(string(out), 5), testNote)
+				survivors++
+			}
+		}
+	}
+	if survivors > 0 {
+		fmt.Printf("%d mutant(s) not caught\n", survivors)
+		return 1
 	}
 	return 0
 }
